@@ -31,7 +31,7 @@ pub fn check(c: &SCase, acc: &mut Acc) -> Check {
     }
     let kind = c.ops.iter().find(|o| matches!(o, Op::Abort | Op::DropBody));
     let at = c.ops.iter().position(|o| matches!(o, Op::Abort | Op::DropBody)).unwrap_or(0);
-    let buffered = c.ops[..at].iter().any(|o| matches!(o, Op::Write(n) | Op::WriteAll(n) if *n > 0));
+    let buffered = c.ops[..at].iter().any(|o| matches!(o, Op::Write(n) | Op::WriteAll(n) if *n > 0) || matches!(o, Op::WriteV(..)));
     let label = format!(
         "{}:{}",
         match kind {
